@@ -2,7 +2,7 @@ from collections.abc import Iterable
 from numbers import Integral
 
 from cubed.array_api.data_type_functions import result_type
-from cubed.array_api.dtypes import _numeric_dtypes
+from cubed.array_api.dtypes import _complex_floating_dtypes, _numeric_dtypes
 from cubed.array_api.manipulation_functions import (
     broadcast_arrays,
     expand_dims,
@@ -177,6 +177,12 @@ def vecdot(x1, x2, /, *, axis=-1, split_every=None):
     x1_ = moveaxis(x1, axis, -1)
     x2_ = moveaxis(x2, axis, -1)
     x1_, x2_ = broadcast_arrays(x1_, x2_)
+
+    if x1_.dtype in _complex_floating_dtypes:
+        # the vector dot product conjugates its first argument
+        from cubed.array_api.elementwise_functions import conj
+
+        x1_ = conj(x1_)
 
     res = matmul(
         x1_[..., None, :],
